@@ -148,6 +148,31 @@ def sm2(P, C):
             l = f.render(ap[0]).replace(" ", "")
             if l == "naxes[i]":
                 got["naxes"] = f.render(ap[1]).replace(" ", "") in ("((nknots-order[i])-1)",)
+    # the adjusted quantities must be what the size terms see: every `size +=` that mentions the knot count, an order or the coefficient
+    # count comes after the adjustment of that quantity (statement order inside the per-dimension loop / function body)
+    pos = f.node_positions()
+    def first_pos(pred):
+        best = None
+        for i in f.walk():
+            if pred(i) and i in pos:
+                best = i if best is None or f.nodes[i]["loc"] < f.nodes[best]["loc"] else best
+        return best
+    adj_nk = first_pos(lambda i: f.k(i) == "CompoundAssignOperator" and f.nodes[i]["op"] == "*=" and f.render(f.nodes[i]["ch"][0]) == "nknots")
+    adj_ax = first_pos(lambda i: f.k(i) == "BinaryOperator" and f.nodes[i]["op"] == "=" and f.render(f.nodes[i]["ch"][0]).replace(" ", "") == "naxes[i]")
+    adj_or = first_pos(lambda i: f.k(i) == "CompoundAssignOperator" and f.render(f.nodes[i]["ch"][0]).replace(" ", "") == "order[convolution_dimension]")
+    late = []
+    for (p, depth, node) in terms:
+        t = f.render(node)
+        line = f.nodes[node]["loc"]
+        if "nknots" in t and adj_nk is not None and line < f.nodes[adj_nk]["loc"]:
+            late.append("knot term at %s precedes `nknots *= n`" % f.loc(node))
+        if "order[" in t and adj_or is not None and line < f.nodes[adj_or]["loc"]:
+            late.append("term with order at %s precedes the order adjustment" % f.loc(node))
+    acc = first_pos(lambda i: f.k(i) == "DeclStmt" and any(d.get("name") == "ncoeffs" for d in f.nodes[i]["decls"]))
+    if acc is not None and adj_ax is not None and f.nodes[acc]["loc"] < f.nodes[adj_ax]["loc"]:
+        late.append("coefficient count computed before naxes is adjusted")
+    C.ob("SM-2", "estimateMemory", "adjust-before-count", not late and adj_nk is not None and adj_ax is not None and adj_or is not None, mf.where(),
+         "every size term is computed from the adjusted shape: %s" % (late or "order, knot count and axis length are adjusted before the terms that use them"))
     nn = Poly.atom("$2")
     o, k = Poly.atom("order[DIM]"), Poly.atom("nknots[DIM]")
     want = {"order": o + nn - Poly.const(1), "nknots": k * nn, "naxes": k * nn - (o + nn - Poly.const(1)) - Poly.const(1)}
